@@ -635,6 +635,15 @@ impl<T: Config> P2PSession<T> {
                 .expect("Missing local input while calling advance_frame().");
             let actual_frame = self.sync_layer.add_local_input(handle, player_input);
             if actual_frame != NULL_FRAME {
+                if self.local_connect_status[handle].last_frame == NULL_FRAME {
+                    // The frames before a player's first delayed input are blank in our own input
+                    // queue. Queue them for the remotes as well: one packet carries a frame for
+                    // all local players, so without them the frames on which another local player
+                    // with a smaller delay already has real input would never be sent.
+                    for frame in 0..actual_frame {
+                        self.queue_outgoing_local_input(handle, PlayerInput::blank_input(frame));
+                    }
+                }
                 let queued_input = PlayerInput::new(actual_frame, player_input.input);
                 self.local_connect_status[handle].last_frame = queued_input.frame;
                 self.queue_outgoing_local_input(handle, queued_input);
